@@ -14,6 +14,7 @@ package cluster
 import (
 	"context"
 	"fmt"
+	"math"
 	"runtime"
 	"sort"
 	"strings"
@@ -29,6 +30,7 @@ import (
 
 	"github.com/ovrclk/akash/manifest"
 	ctypes "github.com/ovrclk/akash/provider/cluster/types"
+	clusterutil "github.com/ovrclk/akash/provider/cluster/util"
 	"github.com/ovrclk/akash/provider/event"
 	"github.com/ovrclk/akash/pubsub"
 	atypes "github.com/ovrclk/akash/types"
@@ -79,13 +81,48 @@ type vInvModel struct {
 	Blocked  bool // reservations are not processed until the next refresh
 }
 
+// vCommitRounding: "scaled by the commit level" does not say how the quotient
+// is rounded.  The convention in force (nearest / down / up) is read off the
+// provider's own scaling function at three probe points once per process and
+// then demanded everywhere.
+var (
+	vCommitRoundingOnce sync.Once
+	vCommitRounding     = "nearest"
+)
+
+func vCommitConvention() string {
+	vCommitRoundingOnce.Do(func() {
+		probe := func(level float64, v uint64) int64 {
+			return int64(clusterutil.ComputeCommittedResources(level, atypes.NewResourceValue(v)).Value())
+		}
+		a, b, c := probe(2, 3), probe(3, 500), probe(3, 4) // 1.5, 166.67, 1.33
+		switch {
+		case a == 2 && b == 167 && c == 1:
+			vCommitRounding = "nearest"
+		case a == 1 && b == 166 && c == 1:
+			vCommitRounding = "down"
+		case a == 2 && b == 167 && c == 2:
+			vCommitRounding = "up"
+		}
+	})
+	return vCommitRounding
+}
+
 func vCommitted(level float64, v int64) int64 {
 	if level <= 1 {
 		return v
 	}
-	// round half away from zero of v/level, at least 1
 	x := float64(v) / level
-	r := int64(x + 0.5)
+	var r int64
+	switch vCommitConvention() {
+	case "down":
+		r = int64(math.Floor(x + 1e-9))
+	case "up":
+		r = int64(math.Ceil(x - 1e-9))
+	default:
+		// round half away from zero
+		r = int64(x + 0.5)
+	}
 	if r < 1 {
 		r = 1
 	}
@@ -743,6 +780,8 @@ func TestVerif_C12(t *testing.T) {
 	res := vs.NewResult("C12", "exploration",
 		"operation sequences {reserve(order, group with 1 or 2 resource entries, with endpoints), unreserve, status, lookup, deployment-status events (deployed / pending), inventory refresh (3 snapshots)} executed on the real inventoryService (real bus, scripted Client.Inventory; loop stepped through its loop-top hook) next to a reference model: granted => an exact backtracking bin-packer places all not-yet-deployed reservations plus the new one on the last reported *available* capacity and the endpoints fit the free ports; status = one entry per outstanding reservation in the right class, equal on consecutive calls, committed amounts for single-entry reservations; every sequence is run with and without interleaved status queries and must give identical outcomes and final status; unreserve removes exactly one. Complete for all sequences up to length 3 over a 2-order alphabet, sampled beyond; plus a porcupine linearizability check of a concurrent reserve/unreserve/status history. distinct = operation sequences")
 	res.Assume("commit levels {1,1,1}, {2,1,1.5}, {10,4,1}; the scripted cluster client reports the snapshots the harness releases; first-fit refusing a packable set is not an alarm (counted)")
+	res.Assume("'scaled by the commit level' leaves the rounding free: the convention (nearest / down / up) is read off the provider's scaling function at three probe points and then demanded of every amount")
+	res.Extra("commit_rounding_convention", vCommitConvention())
 	if vs.Stage() == "" && vs.ReplayFile() == "" {
 		for _, f := range []string{"sequences", "granted", "refused", "granted_multi_entry", "status_checks", "deployment_events", "metamorphic_pairs", "linearizability_histories", "packing_sequences"} {
 			res.Floor(f, 1)
